@@ -41,6 +41,16 @@ CHECKS.update({
             "DESIGN.md section 4, C12"),
 })
 
+CHECKS.update({
+    "C07": ("exhaustive pattern x row enumeration + shipped rule lines + Hypothesis patterns against a word-level reference matcher",
+            "All 3120 patterns of the stated grammar against all 3905 rows (12.2 M pairs, exhaustive for that bound), every rule line of the "
+            "shipped rulebooks for 20 hardware models with synthesised positives and near-miss mutants, and generated longer patterns through "
+            "all five rulebook kinds: match/no-match, key and removal command must equal the reference's. Exhaustive inside the bound, "
+            "exploration outside it.",
+            "Trusted: vf/model/refmatch.py (word-level matcher, 60 lines); shipped lines with word-spanning regexes are counted undecided.",
+            "DESIGN.md section 4, C07"),
+})
+
 NOT_YET = {}
 
 
